@@ -78,6 +78,19 @@ ListCases(ty) ==
   \cup {Case("list", "f:(" \o vs[1].text \o " OR " \o vs[2].text \o " OR " \o vs[3].text \o ")",
              [form |-> "list", items |-> <<vs[1], vs[2], vs[3]>>], <<vs[1], vs[2], vs[3]>>,
              IF ty = "str" THEN "str" ELSE "num", "f:(" \o vs[3].text \o " OR " \o vs[2].text \o " OR " \o vs[1].text \o ")")}
+  \* the same list typed with parentheses inside: grouped to the right, to the left, every item alone, two pairs
+  \cup {Case("list", "f:(" \o vs[1].text \o " OR (" \o vs[2].text \o " OR " \o vs[3].text \o "))",
+             [form |-> "list", items |-> <<vs[1], vs[2], vs[3]>>], <<vs[1], vs[2], vs[3]>>,
+             IF ty = "str" THEN "str" ELSE "num", "f:(" \o vs[3].text \o " OR (" \o vs[2].text \o " OR " \o vs[1].text \o "))"),
+        Case("list", "f:((" \o vs[1].text \o " OR " \o vs[2].text \o ") OR " \o vs[3].text \o ")",
+             [form |-> "list", items |-> <<vs[1], vs[2], vs[3]>>], <<vs[1], vs[2], vs[3]>>,
+             IF ty = "str" THEN "str" ELSE "num", "f:((" \o vs[3].text \o " OR " \o vs[2].text \o ") OR " \o vs[1].text \o ")"),
+        Case("list", "f:((" \o vs[1].text \o ") OR ((" \o vs[2].text \o ") OR (" \o vs[3].text \o ")))",
+             [form |-> "list", items |-> <<vs[1], vs[2], vs[3]>>], <<vs[1], vs[2], vs[3]>>,
+             IF ty = "str" THEN "str" ELSE "num", "f:((" \o vs[3].text \o ") OR ((" \o vs[2].text \o ") OR (" \o vs[1].text \o ")))"),
+        Case("list", "f:((" \o vs[1].text \o " OR " \o vs[2].text \o ") OR (" \o vs[3].text \o " OR " \o vs[2].text \o "))",
+             [form |-> "list", items |-> <<vs[1], vs[2], vs[3], vs[2]>>], <<vs[1], vs[2], vs[3], vs[2]>>,
+             IF ty = "str" THEN "str" ELSE "num", "f:((" \o vs[3].text \o " OR " \o vs[2].text \o ") OR (" \o vs[1].text \o " OR " \o vs[2].text \o "))")}
 
 \* a range with one integer and one decimal end, every bracket combination
 MixedRangeCases ==
